@@ -19,7 +19,7 @@ META = {
                   "typelib.py.frames.extract/getcaller", "typelib.ctx.TypeContext.__missing__", "typelib.graph.get_type_graph/static_order",
                   "typelib.marshals.api.marshaller", "typelib.unmarshals.api.unmarshaller", "typelib.codecs.codec"],
     "bounds": {
-        "quick": "bases {int, list[int], dict[str,int], a dataclass imported into the referencing module, a dataclass defined in it}; every wrapper chain of length 1 and 2 over {NewType, TypeAliasType(value), "
+        "quick": "bases {int, list[int], dict[str,int], Literal['r','w'], a dataclass imported into the referencing module, a dataclass defined in it}; every wrapper chain of length 1 and 2 over {NewType, TypeAliasType(value), "
                  "TypeAliasType('string'), Final, ClassVar, 'string reference', ForwardRef(module=..)} that Python permits; positions root, "
                  "list[.], dict[str, .], tuple[., int], Union[., None], dataclass field; 10 inputs per base (valid wire forms, text, "
                  "wrong-typed, None) through unmarshaller, marshaller and codec; string references issued from the defining module, "
@@ -45,10 +45,12 @@ INPUTS = {
     "Point": [{"x": 1, "y": 2}, {"x": "1", "y": "2"}, '{"x": 1, "y": 2}', M.Point(1, 2), None, {"x": 1}, [("x", 1), ("y", 2)], 7],
     "dict[str,int]": [{"a": 1}, {"a": "1"}, '{"a": 1}', None, [("a", 1)], 3, {"a": "x"}, {}],
     "WPoint": [{"x": 1, "y": 2}, {"x": "1", "y": "2"}, '{"x": 1, "y": 2}', wrapmod.WPoint(1, 2), None, {"x": 1}, 7],
+    "Literal": ["r", "w", "x", b"r", None, 1, ["r"]],
 }
 VALUES = {
     "int": [1, -5, True], "list[int]": [[1, 2], [], (3,)], "Point": [M.Point(1, 2)], "dict[str,int]": [{"a": 1}, {}],
     "WPoint": [wrapmod.WPoint(1, 2)],
+    "Literal": ["r", "w"],
 }
 
 
